@@ -39,7 +39,26 @@ func residueMain(args []string) {
 	sum.finish(start, cf.out)
 }
 
+// residueRun runs the batches under a watchdog: the calls use context.Background(), so a wedged node
+// (known findings of C09, likely after the batch that breaks the streams) would block the engine for good.
 func residueRun(rep int, seed int64, sum *sumT) int {
+	res := make(chan int, 1)
+	go func() { res <- residueBatches(rep, seed, sum) }()
+	select {
+	case n := <-res:
+		return n
+	case <-time.After(120 * time.Second):
+		if w := diagnose(); w.id != "" {
+			sum.known("C09:" + w.id)
+			sum.count("run-abandoned-after-known-wedge:" + w.id)
+		} else {
+			sum.mismatch(Mismatch{Property: "C09", Case: "residue", Expected: "batches complete", Observed: "stuck for 120s", Detail: strings.Join(signatures(goroutineDump()), "; ")})
+		}
+		return 0
+	}
+}
+
+func residueBatches(rep int, seed int64, sum *sumT) int {
 	n := 3
 	sh, err := newShard(n)
 	if err != nil {
